@@ -117,6 +117,9 @@ typedef struct {
     int   has_scale;
     int32 scale_nt;
     uint8 scale[16];
+    int   cv_seq; /* 0, or the rank in which this dimension got its coordinate variable (scale, strings or attribute
+                     first set): the library keeps variables in creation order and that order is part of the state
+                     the remaining history runs on, so it is part of the key */
 } mdim;
 
 static struct {
@@ -125,7 +128,7 @@ static struct {
     int   ndim;
     int   slot[3]; /* SO_DIM0.. -> index into dim[] */
     int   sds1;
-    int   readonly, nops, ndds;
+    int   readonly, nops, ndds, ncv;
 } S;
 static int32 sd = FAIL, sds[2] = {FAIL, FAIL};
 
@@ -291,6 +294,8 @@ sd_apply(const mc_op *op)
                 return 1;
             }
             aset(sd_alist(obj), nm, nt, cnt, v);
+            if (obj >= SO_DIM0 && !S.dim[S.slot[obj - SO_DIM0]].cv_seq)
+                S.dim[S.slot[obj - SO_DIM0]].cv_seq = ++S.ncv;
             break;
         }
         case O_DIMNAME: {
@@ -347,6 +352,8 @@ sd_apply(const mc_op *op)
             }
             d->has_scale = 1, d->scale_nt = nt;
             memcpy(d->scale, v, (size_t)(d->size * tsize(nt)));
+            if (!d->cv_seq)
+                d->cv_seq = ++S.ncv;
             break;
         }
         case O_DIMSTRS: {
@@ -361,6 +368,8 @@ sd_apply(const mc_op *op)
             }
             aset(&d->at, "long_name", DFNT_CHAR8, (int)strlen(l), l);
             aset(&d->at, "units", DFNT_CHAR8, (int)strlen(u), u);
+            if (!d->cv_seq)
+                d->cv_seq = ++S.ncv;
             break;
         }
         case O_DATASTRS: {
@@ -593,6 +602,7 @@ sd_key(void)
         h = mc_hash(h, S.dim[i].name, strlen(S.dim[i].name));
         h = ahash(h, &S.dim[i].at);
         h = mc_hash_i(h, S.dim[i].has_scale * 100 + S.dim[i].scale_nt);
+        h = mc_hash_i(h, S.dim[i].cv_seq);
         h = mc_hash(h, S.dim[i].scale, sizeof S.dim[i].scale);
     }
     h = mc_hash(h, S.slot, sizeof S.slot);
